@@ -49,6 +49,13 @@ SYMMETRIC_RELAXATION = ['jacobi', 'richardson', 'block_jacobi',
 KRYLOV_RELAXATION = ['cg', 'cgne', 'cgnr', 'gmres']
 
 
+def _same_parameters(kwargs1, kwargs2):
+    """Compare smoother options other than the sweep direction."""
+    opts1 = {k: v for k, v in kwargs1.items() if k != 'sweep'}
+    opts2 = {k: v for k, v in kwargs2.items() if k != 'sweep'}
+    return opts1 == opts2
+
+
 def _unpack_arg(v):
     if isinstance(v, tuple):
         return v[0], v[1]
@@ -241,7 +248,7 @@ def change_smoothers(ml, presmoother, postsmoother):
 
             if not (fit1 == fit2 and cit1 == cit2):
                 ml.symmetric_smoothing = False
-        elif fn1 != fn2:
+        elif fn1 != fn2 or not _same_parameters(kwargs1, kwargs2):
             ml.symmetric_smoothing = False
         elif fn1 in KRYLOV_RELAXATION or fn2 in KRYLOV_RELAXATION:
             ml.symmetric_smoothing = False
@@ -293,7 +300,7 @@ def change_smoothers(ml, presmoother, postsmoother):
 
                 if not (fit1 == fit2 and cit1 == cit2):
                     ml.symmetric_smoothing = False
-            elif fn1 != fn2:
+            elif fn1 != fn2 or not _same_parameters(kwargs1, kwargs2):
                 ml.symmetric_smoothing = False
             elif fn1 in KRYLOV_RELAXATION or fn2 in KRYLOV_RELAXATION:
                 ml.symmetric_smoothing = False
@@ -346,7 +353,7 @@ def change_smoothers(ml, presmoother, postsmoother):
 
                 if not (fit1 == fit2 and cit1 == cit2):
                     ml.symmetric_smoothing = False
-            elif fn1 != fn2:
+            elif fn1 != fn2 or not _same_parameters(kwargs1, kwargs2):
                 ml.symmetric_smoothing = False
             elif fn1 in KRYLOV_RELAXATION or fn2 in KRYLOV_RELAXATION:
                 ml.symmetric_smoothing = False
